@@ -39,7 +39,33 @@ Bij  == Permutations(Pool)
 (***************************************************************************)
 (* The ground universe and constant tables over it (evaluated once).        *)
 (***************************************************************************)
-BaseSub == UNION {Subterms(TermPool[i]) : i \in DOMAIN TermPool}
+BaseSub0 == UNION {Subterms(TermPool[i]) : i \in DOMAIN TermPool}
+
+(***************************************************************************)
+(* The signature step below compares binder NAMES, so two congruent nodes   *)
+(* lam x. A ~ lam y. B are merged through alpha-variants that use the same  *)
+(* binder name.  Bijection images provide every alpha-variant of a node     *)
+(* EXCEPT when the binder's name also occurs free in a sibling child, e.g.  *)
+(* (let x body[x] value[x]): a bijection renames both occurrences alike.    *)
+(* The universe is therefore closed under renaming the ROOT binders of      *)
+(* every subterm to any names z that are not free in that child outside the *)
+(* binders (the renaming is realised by a bijection, so the renamed child   *)
+(* is an image of the old child and needs no further closing).              *)
+(***************************************************************************)
+ZSeqs(m) == {z \in [1..m -> Pool] : \A p, q \in 1..m : z[p] = z[q] => p = q}
+RenChild(c, z) ==
+  LET bdn  == Range(c.bd)
+      tgt  == [b \in bdn |-> z[LastPos(c.bd, b)]]
+      tset == {tgt[b] : b \in bdn}
+      pi   == CHOOSE b \in Bij : /\ \A x \in bdn : b[x] = tgt[x]
+                                  /\ \A y \in Pool \ (bdn \cup tset) : b[y] = y
+  IN [bd |-> z, t |-> Ren(c.t, pi)]
+RootVariants(s) ==
+  UNION {{[op |-> s.op, sl |-> s.sl, ch |-> [j \in DOMAIN s.ch |-> IF j = k THEN RenChild(s.ch[k], z) ELSE s.ch[j]]] :
+            z \in {y \in ZSeqs(Len(s.ch[k].bd)) :
+                     {y[p] : p \in DOMAIN y} \cap (FV(s.ch[k].t) \ Range(s.ch[k].bd)) = {}}} :
+         k \in {j \in DOMAIN s.ch : s.ch[j].bd # << >>}}
+BaseSub == BaseSub0 \cup UNION {RootVariants(s) : s \in BaseSub0}
 US      == UNION {{Ren(s, b) : b \in Bij} : s \in BaseSub}
 us      == SetToSeq(US)
 n       == Len(us)
